@@ -246,14 +246,18 @@ func MakeOptions(c Config, fs vfs.FS, ev *Events) *pebble.Options {
 // ---------------------------------------------------------------------------
 
 type iterObj struct {
-	it           *pebble.Iterator
-	m            *model.Iter
-	desc         string
-	batch        *batchObj    // non-nil for batch iterators
-	base         *model.State // batch iterators: committed state pinned at creation
-	born         int
-	frozen       bool        // long-lived: created before later writes
-	excisedSpans [][2]string // spans excised after creation (documented exception for nothing here; kept for snapshots)
+	it             *pebble.Iterator
+	m              *model.Iter
+	desc           string
+	batch          *batchObj    // non-nil for batch iterators
+	base           *model.State // batch iterators: committed state pinned at creation
+	born           int
+	frozen         bool        // long-lived: created before later writes
+	excisedSpans   [][2]string // spans excised after creation (documented exception for nothing here; kept for snapshots)
+	lastSeek       string      // previous seek key of a positioning burst
+	forceFirstSeek string      // if set, the next burst starts with SeekGE of this key
+	full           []string    // every op on the iterator since its creation (diagnostics)
+	l6             bool        // UseL6Filters the iterator was created with
 }
 
 type snapObj struct {
